@@ -84,6 +84,9 @@ def _f55(spec, sig, msg):
         return spec.get("swap_algo") == "qr" and len(spec.get("swaps", [])) >= 2 and rng >= 1e4 and rel <= 1e-3
     if sig in ("dense.qr", "fresh_order.qr", "swap.qr"):
         return rng >= 1e6 and rel <= 1e-5
+    if sig in ("swap.Hopcroft-Karp", "swap.Hungarian"):
+        # QR swap of a graph-built operator: the same loss of accuracy over >= 6 decades
+        return spec.get("swap_algo") == "qr" and rng >= 1e6 and rel <= 1e-5
     return False
 
 
